@@ -68,7 +68,7 @@ theorem behind_refl (d : Design) : Behind d.ndefs d := by
   intro n h1 h2; omega
 
 theorem makeUnique_behind {d d' : Design} {q k : Nat} {c : Inst} {n0 : Nat} (hwf : WF d) (hq : q < d.ndefs)
-    (hc : (d.defs q).children[k]? = some c) (h : makeUnique d q k c.ref = some d') (hn0 : n0 ≤ d.ndefs)
+    (hc : (d.defs q).children[k]? = some c) (h : makeUnique d q k c.ref = some d') (_hn0 : n0 ≤ d.ndefs)
     (hb : Behind n0 d) : Behind n0 d' := by
   obtain ⟨D', cc, hcl, hn, hdefs, hord, htop, _, hctr⟩ := makeUnique_some h
   have hnew := makeUnique_new h
